@@ -3,12 +3,14 @@
 // requests in flight, reconnect or client close.
 //
 // Kill points (of the first execution of the target request):
-//   before-send   client-side transport wrapper: the connection is closed on the next
-//                 transport Send (the request never reaches the server on that connection)
-//   after-send    server handler: disconnect after receiving the request, no ack, no result
-//   after-ack     server handler: msgs_ack for the request, wait until the client's rpc
-//                 engine has PROCESSED the ack (verifhook point, keyed by msg_id), disconnect
-//   after-result  server handler: write the rpc_result, disconnect immediately
+//
+//	before-send   client-side transport wrapper: the connection is closed on the next
+//	              transport Send (the request never reaches the server on that connection)
+//	after-send    server handler: disconnect after receiving the request, no ack, no result
+//	after-ack     server handler: msgs_ack for the request, wait until the client's rpc
+//	              engine has PROCESSED the ack (verifhook point, keyed by msg_id), disconnect
+//	after-result  server handler: write the rpc_result, disconnect immediately
+//
 // Close modes: none; close-pending (server never answers the target, client closed while
 // the request is pending); close-waiting (after-send kill + the dialer refuses to
 // reconnect, client closed while the request waits for a reconnect); plus one new
@@ -34,6 +36,9 @@ import (
 
 	"github.com/gotd/td/bin"
 	"github.com/gotd/td/internal/verifhook"
+	"github.com/gotd/td/mt"
+	"github.com/gotd/td/pool"
+	"github.com/gotd/td/proto"
 	"github.com/gotd/td/session"
 	"github.com/gotd/td/telegram"
 	"github.com/gotd/td/telegram/dcs"
@@ -51,12 +56,22 @@ type Plan struct {
 	NReq   int    `json:"nreq"`
 	Target int    `json:"target"`
 	Delay  int    `json:"delay_ms"` // stagger between the requests' starts
+	// after-batched-ack: the ids of the ONE msgs_ack the server sends, in order: "B" the target,
+	// "A" the other pending request, "Z" a request that already completed (warm-up), "U" an id
+	// the client never used; e.g. ["Z","B"].  Requests: 0 = A, 1 = B (target).
+	Batch []string `json:"batch,omitempty"`
+	// BackoffMs: reconnection backoff of the client (default 30 ms)
+	BackoffMs int `json:"backoff_ms,omitempty"`
 }
 
 type exec struct {
 	MsgID    int64 `json:"msg_id"`
 	Acked    bool  `json:"acked"`    // client processed an ack for this msg_id (hook)
 	Answered bool  `json:"answered"` // server wrote a result for this execution
+	// AckDelivered: the server sent a msgs_ack containing this msg_id in front of another
+	// request's result in the same container, and that other request returned: the client's
+	// rpc engine was handed the ack (server-side view, independent of what the engine did with it)
+	AckDelivered bool `json:"ack_delivered"`
 }
 type reqState struct {
 	Execs    []exec        `json:"execs"`
@@ -77,6 +92,12 @@ type scen struct {
 	closedAt  time.Time
 	newAfter  *reqState // invocation started after close
 	notes     []string
+	// after-batched-ack bookkeeping
+	warmMsgID int64
+	aReq      *tgtest.Request
+	bMsgID    int64
+	aArrived  bool
+	bArrived  bool
 }
 
 // ---- hook: client-view acks ----
@@ -146,6 +167,9 @@ func handler(server *tgtest.Server, req *tgtest.Request) error {
 		sc.mu.Unlock()
 		return server.SendGZIP(req, &tg.Updates{})
 	}
+	if sc.plan.Kill == "after-batched-ack" && n == 0 {
+		return batched(server, req, sc, k, r)
+	}
 	first := n == 0 && k == sc.plan.Target
 	if !first {
 		return answer()
@@ -182,6 +206,101 @@ func handler(server *tgtest.Server, req *tgtest.Request) error {
 		return nil
 	}
 	return answer()
+}
+
+// batched implements the kill point "after a batched ack": request A (0) and the target B (1)
+// are both left pending; when both have arrived the server sends ONE container
+// [msgs_ack{plan.Batch}, rpc_result{A}].  The client handles a container in order, so once A's
+// Invoke has returned the ack vector has been handed to the rpc engine.  Then the
+// connection is killed while B still waits for its result.
+func batched(server *tgtest.Server, req *tgtest.Request, sc *scen, k int, r *reqState) error {
+	if k >= 2 { // the warm-up request Z: completes normally, its id is acked later
+		sc.mu.Lock()
+		sc.warmMsgID = req.MsgID
+		r.Execs[0].Answered = true
+		sc.mu.Unlock()
+		return server.SendGZIP(req, &tg.Updates{})
+	}
+	sc.mu.Lock()
+	if k == 0 {
+		cp := *req
+		sc.aReq, sc.aArrived = &cp, true
+	} else {
+		sc.bMsgID, sc.bArrived = req.MsgID, true
+	}
+	both := sc.aArrived && sc.bArrived
+	a, bID, z := sc.aReq, sc.bMsgID, sc.warmMsgID
+	sc.mu.Unlock()
+	if !both {
+		return nil
+	}
+	defer func() {
+		select {
+		case <-sc.targetHit:
+		default:
+			close(sc.targetHit)
+		}
+	}()
+	var ids []int64
+	for i, t := range sc.plan.Batch {
+		switch t {
+		case "B":
+			ids = append(ids, bID)
+		case "A":
+			ids = append(ids, a.MsgID)
+		case "Z":
+			ids = append(ids, z)
+		default:
+			ids = append(ids, bID-int64(4*(1000+i))) // same kind of id, never used by the client
+		}
+	}
+	enc := func(e bin.Encoder) []byte {
+		var b bin.Buffer
+		if err := e.Encode(&b); err != nil {
+			panic(err)
+		}
+		return b.Copy()
+	}
+	ackBody := enc(&mt.MsgsAck{MsgIDs: ids})
+	resBody := enc(&proto.Result{RequestMessageID: a.MsgID, Result: enc(&tg.Updates{})})
+	base := (time.Now().Unix() << 32) | 1
+	cont := &proto.MessageContainer{Messages: []proto.Message{
+		{ID: base, SeqNo: 0, Bytes: len(ackBody), Body: ackBody},
+		{ID: base + 4, SeqNo: 1, Bytes: len(resBody), Body: resBody},
+	}}
+	if err := server.Send(req.RequestCtx, req.Session, proto.MessageFromServer, cont); err != nil {
+		sc.note("container send failed: " + err.Error())
+	}
+	sc.mu.Lock()
+	sc.reqs[0].Execs[0].Answered = true
+	sc.mu.Unlock()
+	// wait until A came back on the client: then the ack vector was processed before it
+	deadline := time.Now().Add(8 * time.Second)
+	delivered := false
+	for time.Now().Before(deadline) {
+		sc.mu.Lock()
+		ra := sc.reqs[0]
+		done, ok := ra.Returned, ra.Err == ""
+		sc.mu.Unlock()
+		if done {
+			delivered = ok
+			break
+		}
+		time.Sleep(2 * time.Millisecond)
+	}
+	if delivered {
+		sc.mu.Lock()
+		for _, t := range sc.plan.Batch {
+			if t == "B" {
+				sc.reqs[1].Execs[0].AckDelivered = true
+			}
+		}
+		sc.mu.Unlock()
+	} else {
+		sc.note("request A did not return after the container: ack delivery unconfirmed")
+	}
+	server.ForceDisconnect(req.Session)
+	return nil
 }
 
 func (sc *scen) note(s string) {
@@ -242,7 +361,11 @@ func runScenario(cl *cluster.Cluster, p Plan) *scen {
 		DC:             2,
 		SessionStorage: &session.StorageMemory{},
 		ReconnectionBackoff: func() backoff.BackOff {
-			return backoff.NewConstantBackOff(30 * time.Millisecond)
+			d := 30 * time.Millisecond
+			if p.BackoffMs > 0 {
+				d = time.Duration(p.BackoffMs) * time.Millisecond
+			}
+			return backoff.NewConstantBackOff(d)
 		},
 	})
 	invoke := func(r *reqState, k int, wd time.Duration) {
@@ -281,7 +404,13 @@ func runScenario(cl *cluster.Cluster, p Plan) *scen {
 		if p.Close == "close-waiting" {
 			sc.blockDial.Store(true)
 		}
-		for k := 0; k < n; k++ {
+		first := 0
+		if p.Kill == "after-batched-ack" && n > 2 {
+			// warm-up request Z (index 2): completes before A and B start
+			invoke(sc.reqs[2], 2, watchdog)
+			n, first = 2, 0
+		}
+		for k := first; k < n; k++ {
 			wg.Add(1)
 			go func(k int) {
 				defer wg.Done()
@@ -301,7 +430,7 @@ func runScenario(cl *cluster.Cluster, p Plan) *scen {
 		case <-time.After(watchdog):
 			sc.note("target never reached the server")
 		}
-		if p.Close == "close-waiting" {
+		if p.Close == "close-waiting" || p.Close == "close-backoff" {
 			time.Sleep(300 * time.Millisecond) // let the invocation observe the death and start waiting
 		} else {
 			time.Sleep(100 * time.Millisecond)
@@ -323,12 +452,171 @@ func runScenario(cl *cluster.Cluster, p Plan) *scen {
 		case <-time.After(closeWatchdog):
 		}
 		sc.newAfter = &reqState{}
-		k := n // body index outside the registered ones
+		k := p.NReq + 5 // body index outside the registered ones
 		invoke(sc.newAfter, k, closeWatchdog)
 	} else {
 		wg.Wait()
 	}
 	return sc
+}
+
+// ---- invokeConn racing with exactly one replaceConn (linearizability stress) ----
+//
+// The snapshot (c.conn, c.connChanged) of invokeConn and replaceConn of the reconnect loop
+// are critical sections of the same mutex.  Every round: the current primary connection is
+// dead; k callers enter invokeConn and one replaceConn installs a working connection, all
+// released together by a spin barrier with small PRNG-chosen skews.  Whatever the
+// interleaving, every caller must get the result: either it already saw the new connection,
+// or it fails on the old one and is woken by the replacement.  A caller still waiting for a
+// reconnect after the watchdog, although a working primary exists, is a lost request.
+type fakeConn struct {
+	dead  atomic.Bool
+	calls atomic.Int32
+}
+
+func (f *fakeConn) Run(ctx context.Context) error { <-ctx.Done(); return ctx.Err() }
+func (f *fakeConn) Ping(context.Context) error    { return nil }
+func (f *fakeConn) Invoke(context.Context, bin.Encoder, bin.Decoder) error {
+	f.calls.Add(1)
+	if f.dead.Load() {
+		return pool.ErrConnDead
+	}
+	return nil
+}
+
+type raceCfg struct {
+	Rounds   int    `json:"rounds"`
+	BudgetMs int    `json:"budget_ms"`
+	Seed     uint64 `json:"seed"`
+}
+
+func raceReplace(c *hx.Ctx, cfg raceCfg) {
+	const roundWatchdog = 3 * time.Second
+	const maxCallers = 2
+	rng := hx.NewRand(cfg.Seed)
+	cl := telegram.NewClient(1, "hash", telegram.Options{})
+	cl.VerifSetContext(context.Background())
+	cur := &fakeConn{}
+	cl.VerifReplaceConn(cur)
+
+	// persistent workers spinning between rounds: no goroutine start / thread wake-up inside a
+	// round, so callers and the replacement really run at the same time
+	type round struct {
+		nw      *fakeConn
+		callers int32
+		skew    [maxCallers + 1]int32
+		barrier atomic.Int32
+		done    atomic.Int32
+		errs    [maxCallers]error
+	}
+	var curRound atomic.Pointer[round]
+	var roundNo atomic.Int64
+	var stop atomic.Bool
+	spin := func(n int32) {
+		var x atomic.Int32
+		for i := int32(0); i < n; i++ {
+			x.Load()
+		}
+	}
+	worker := func(id int) { // id < maxCallers: caller; id == maxCallers: replacer
+		seen := int64(0)
+		for {
+			for roundNo.Load() == seen {
+				if stop.Load() {
+					return
+				}
+			}
+			seen = roundNo.Load()
+			r := curRound.Load()
+			if id < maxCallers && int32(id) >= r.callers {
+				continue
+			}
+			total := r.callers + 1
+			r.barrier.Add(1)
+			for r.barrier.Load() < total {
+			}
+			spin(r.skew[id])
+			if id == maxCallers {
+				cl.VerifReplaceConn(r.nw)
+			} else {
+				ctx, cancel := context.WithTimeout(context.Background(), roundWatchdog)
+				r.errs[id] = cl.VerifInvokeConn(ctx, nil, nil)
+				cancel()
+			}
+			r.done.Add(1)
+		}
+	}
+	for i := 0; i <= maxCallers; i++ {
+		go worker(i)
+	}
+	defer stop.Store(true)
+
+	t0 := time.Now()
+	rounds, viaOld, viaNew := 0, 0, 0
+	// at least minRounds whatever the machine load (a round costs microseconds on a quiet
+	// machine, milliseconds of wake-up latency on a loaded one), never more than 8x the budget
+	const minRounds = 2500
+	budget := time.Duration(cfg.BudgetMs) * time.Millisecond
+	for rounds < cfg.Rounds && (time.Since(t0) < budget || (rounds < minRounds && time.Since(t0) < 8*budget)) {
+		rounds++
+		r := &round{nw: &fakeConn{}, callers: 1}
+		if rounds > 40 {
+			r.callers = int32(1 + rng.Intn(maxCallers))
+		}
+		for i := range r.skew {
+			r.skew[i] = int32(rng.Intn(1 + rng.Intn(120)))
+		}
+		old := cur
+		oldBefore := int(old.calls.Load())
+		old.dead.Store(true)
+		curRound.Store(r)
+		roundNo.Add(1)
+		for r.done.Load() < r.callers+1 {
+		}
+		var bad error
+		for i := int32(0); i < r.callers; i++ {
+			if r.errs[i] != nil && bad == nil {
+				bad = r.errs[i]
+			}
+		}
+		c.Obs.Evaluations += int(r.callers)
+		oldCalls, newCalls := int(old.calls.Load())-oldBefore, int(r.nw.calls.Load())
+		if r.callers == 1 && rounds <= 40 {
+			// correspondence sample: one caller, attempts seen by the two connections
+			ev := []string{"EKill 0%nat"}
+			if oldCalls > 0 {
+				ev = append(ev, "ESnapshot", "EObserveDead", "EReplace", "EWake")
+			} else {
+				ev = append(ev, "EReplace")
+			}
+			cls := 0
+			if bad == nil {
+				ev = append(ev, "ESnapshot", "ESend", "EResult 1%Z")
+			} else {
+				cls = 3
+				ev = append(ev, "ECancel", "EWakeCtx")
+			}
+			c.Case(hx.Tuple(hx.List(ev), hx.Tuple(hx.Z(int64(cls)), fmt.Sprintf("%d%%nat", newCalls))),
+				map[string]interface{}{"race_round": rounds, "old_calls": oldCalls, "new_calls": newCalls, "err": fmt.Sprint(bad)})
+		}
+		if oldCalls > 0 {
+			viaOld++
+		} else {
+			viaNew++
+		}
+		if bad != nil {
+			c.Violate("request-lost-after-replace", fmt.Sprintf("invokeConn racing with one replaceConn (round %d, %d caller(s), attempts on the dead connection: %d, on the replacement: %d): the primary connection was replaced by a working one and a caller was still waiting for a reconnect after %v: %v", rounds, r.callers, oldCalls, newCalls, roundWatchdog, bad),
+				-1, 0, map[string]interface{}{"race": cfg})
+			break
+		}
+		cur = r.nw
+	}
+	c.Count(fmt.Sprintf("race-replace:rounds=%dk", rounds/1000))
+	c.Obs.Distribution["race-replace:caller-saw-old-conn"] += viaOld
+	c.Obs.Distribution["race-replace:caller-saw-new-conn-only"] += viaNew
+	if viaOld > 0 && viaNew > 0 {
+		c.Nontrivial("race-replace:both-orders")
+	}
 }
 
 type result struct {
@@ -359,10 +647,15 @@ func main() {
 
 	var plans []Plan
 	var rp struct {
-		Plan *Plan `json:"plan"`
+		Plan *Plan    `json:"plan"`
+		Race *raceCfg `json:"race"`
 	}
-	if c.LoadReplay(&rp) && rp.Plan != nil {
-		plans = []Plan{*rp.Plan}
+	race := &raceCfg{Rounds: c.N(150000, 3000000), BudgetMs: c.N(6000, 90000), Seed: c.Rng.U64()}
+	if c.LoadReplay(&rp) && (rp.Plan != nil || rp.Race != nil) {
+		race = rp.Race
+		if rp.Plan != nil {
+			plans = []Plan{*rp.Plan}
+		}
 	} else {
 		id := 1
 		add := func(kill, cls string, nreq, target, delay int) {
@@ -375,6 +668,27 @@ func main() {
 		}
 		add("none", "close-pending", 1, 0, 0)
 		add("after-send", "close-waiting", 1, 0, 0)
+		// close during the reconnect backoff pause (1 s): bounded delay, recorded as an observation
+		plans = append(plans, Plan{ID: id, Kill: "after-send", Close: "close-backoff", NReq: 1, BackoffMs: 1000})
+		id++
+		// one msgs_ack for several ids: ids without a waiter (completed Z, never-used U, repeated B)
+		// in every position around the pending target B
+		batches := [][]string{{"Z", "B"}, {"B", "Z"}, {"U", "B"}, {"A", "B"}, {"B"}, {"Z", "U", "B", "A"}, {"B", "B"}}
+		nb := c.N(4, len(batches))
+		for i := 0; i < nb; i++ {
+			b := batches[i]
+			if i >= 2 && !c.Thorough() {
+				b = batches[2+c.Rng.Intn(len(batches)-2)]
+			}
+			nreq := 2
+			for _, t := range b {
+				if t == "Z" {
+					nreq = 3
+				}
+			}
+			plans = append(plans, Plan{ID: id, Kill: "after-batched-ack", Close: "none", NReq: nreq, Target: 1, Batch: b})
+			id++
+		}
 		// generated: 2..3 requests in flight, target position and stagger from the PRNG
 		kills := []string{"before-send", "after-send", "after-ack", "after-result"}
 		for i := 0; i < c.N(10, 380); i++ {
@@ -412,7 +726,15 @@ func main() {
 	for _, sc := range results {
 		judge(c, sc)
 	}
-	c.Obs.Rule = "one scenario = one real telegram.Client against the tgtest cluster with 1..3 MessagesSendMessage requests in flight and the connection killed at one protocol step of the target (before send / after send / after the client processed the server's ack / after the result was written), or the client closed while a request is pending or waiting for a reconnect; evaluations = invocations judged; non-trivial = distinct (kill point, close mode, number in flight, target position, outcome pattern) in which the connection was really replaced or the client really closed"
+	if race != nil {
+		raceReplace(c, *race)
+	}
+	for _, v := range c.Obs.Violations {
+		if c.Replay != "" {
+			fmt.Println("replay:", v.Sig, "-", v.Desc)
+		}
+	}
+	c.Obs.Rule = "one scenario = one real telegram.Client against the tgtest cluster with 1..3 MessagesSendMessage requests in flight and the connection killed at one protocol step of the target (before send / after send / after the client processed the server's ack / after the result was written), or the client closed while a request is pending or waiting for a reconnect; evaluations = invocations judged; non-trivial = distinct (kill point, close mode, number in flight, target position, outcome pattern) in which the connection was really replaced or the client really closed; plus the race-replace stress: rounds of k callers entering invokeConn against exactly one replaceConn by a working connection (fake connections through export_verif.go), every caller must return the result within 3 s"
 	c.Finish()
 }
 
@@ -432,6 +754,11 @@ func judge(c *hx.Ctx, sc *scen) {
 	}
 	c.Sample(res)
 	closed := p.Close != "none"
+	if p.Close == "close-backoff" {
+		for k, r := range sc.reqs {
+			c.Note(fmt.Sprintf("observation (not a violation: bounded by the backoff interval): client closed during the %d ms reconnect backoff pause; pending request %d returned %v after close with %q -- RetryNotify's pause is not interrupted by the client context (tdsync.SyncBackoff hides BackOffContext) and the invocation sits in waitSession of the not-yet-run replacement connection", p.BackoffMs, k, r.AfterCl.Round(time.Millisecond), r.Err))
+		}
+	}
 	pattern := ""
 	var cases []struct {
 		sh, ix int
@@ -442,7 +769,7 @@ func judge(c *hx.Ctx, sc *scen) {
 		c.Obs.Evaluations++
 		ackedAt := -1
 		for i, e := range r.Execs {
-			if e.Acked && ackedAt < 0 {
+			if (e.Acked || e.AckDelivered) && ackedAt < 0 {
 				ackedAt = i
 			}
 		}
@@ -456,7 +783,7 @@ func judge(c *hx.Ctx, sc *scen) {
 			}
 			viols = append(viols, viol{sig, fmt.Sprintf("request %d of scenario %+v did not return within the watchdog", k, p)})
 		case ackedAt >= 0 && len(r.Execs) > ackedAt+1:
-			viols = append(viols, viol{"re-sent-after-ack", fmt.Sprintf("request %d of scenario %+v: the client had processed the ack of execution %d (msg_id %d) and the body was executed %d more time(s)", k, p, ackedAt, r.Execs[ackedAt].MsgID, len(r.Execs)-ackedAt-1)})
+			viols = append(viols, viol{"re-sent-after-ack", fmt.Sprintf("request %d of scenario %+v: the ack of execution %d (msg_id %d) had reached the client's rpc engine (seen processed through the hook: %v; delivered in front of another request's result: %v) and the body was executed %d more time(s); caller got: %q", k, p, ackedAt, r.Execs[ackedAt].MsgID, r.Execs[ackedAt].Acked, r.Execs[ackedAt].AckDelivered, len(r.Execs)-ackedAt-1, r.Err)})
 		case ackedAt >= 0 && r.Err == "" && !r.Execs[ackedAt].Answered:
 			viols = append(viols, viol{"result-without-answer", fmt.Sprintf("request %d of scenario %+v returned success although its acknowledged execution was never answered", k, p)})
 		case ackedAt < 0 && !closed && r.Err != "":
@@ -565,7 +892,8 @@ func reconstruct(p Plan, r *reqState, closed bool) ([]string, int) {
 	}
 	for i, e := range r.Execs {
 		ev = append(ev, "ESend")
-		if e.Acked {
+		acked := e.Acked || e.AckDelivered
+		if acked {
 			ev = append(ev, "EAck")
 		}
 		last := i == n-1
@@ -573,12 +901,12 @@ func reconstruct(p Plan, r *reqState, closed bool) ([]string, int) {
 			ev = append(ev, "EResult 1%Z")
 			return ev, 0
 		}
-		if last && closed && !e.Acked {
+		if last && closed && !acked {
 			ev = append(ev, "EClose", "EObserveDead", "EWakeClosed")
 			return ev, 2
 		}
 		ev = append(ev, fmt.Sprintf("EKill %d%%nat", gen), "EObserveDead")
-		if e.Acked {
+		if acked {
 			return ev, 1
 		}
 		if last {
